@@ -106,6 +106,86 @@ func checkC16(c *Ctx, e *Env) {
 	ruleC16First(c, m)
 	ruleC16Probe(c, m)
 	ruleC16Mgr(c, m)
+	ruleC16Every(c, m)
+	ruleC16Stateless(c, m)
+}
+
+// ruleC16Every: every content hash named in a successful Attest / RegisterResolver message is dealt
+// with — each committed iteration of the handler's loop over the request's content hashes either
+// writes the record for that hash or finds it already present (Has == true). An iteration that does
+// neither (a skip on some other condition, e.g. an in-message dedupe) leaves data the message named
+// without its anchor / attestation although the message succeeded, and the "first" timestamp is lost.
+func ruleC16Every(c *Ctx, m *Model) {
+	p := m.P
+	r := RunE1(m)
+	for hk, table := range map[string]string{"data.Attest": "DataAttestor", "data.RegisterResolver": "DataResolver"} {
+		h := r.byKey[hk]
+		if h == nil {
+			c.Undecide("C16.EVERY", hk, "-", "handler not found")
+			continue
+		}
+		bad := ""
+		n := 0
+		for _, o := range h.Outs {
+			if o.Kind != exitLoopback || strings.Count(o.Loop, "/") != 1 {
+				continue // only iterations of the handler's own (outermost) loop
+			}
+			n++
+			st := o.St
+			done := false
+			for i := range st.events {
+				ev := &st.events[i]
+				if ev.Kind == "write" && ev.Table != nil && ev.Table.Name == table && inScope(o, ev) {
+					done = true
+				}
+			}
+			for _, f := range st.facts {
+				if strings.HasPrefix(f, "+Has:"+table+".Has(") {
+					done = true
+				}
+			}
+			if !done && bad == "" {
+				bad = "an iteration over the request's content hashes completes without writing " + table + " and without having found the record present, on path {" + clip(strings.Join(st.facts, " "), 300) + "}"
+			}
+		}
+		c.Check(bad == "" && n > 0, "C16.EVERY", hk+"#every-hash", p.Pos(h.Fn.Pos()), fmt.Sprintf("%d committed iterations over the request's content hashes, each writing the %s record or finding it present %s", n, table, bad))
+	}
+}
+
+// ruleC16Stateless: the x/data handlers and everything they reach keep nothing outside the store —
+// no write through references held by the server / hasher objects, no process-local maps, no
+// sync primitives, no method calls on shared standard-library objects. A memo that survives a
+// discarded execution (simulation, failed transaction) would make ids and timestamps depend on
+// the process history. (The determinism lints of C10, applied to the x/data closure.)
+func ruleC16Stateless(c *Ctx, m *Model) {
+	p := m.P
+	tmp := NewCtx("C10", c.Tier)
+	g := NewGraph(p)
+	var roots []*ssa.Function
+	for _, e := range m.Entries {
+		if e.Kind == "msg" && e.Implemented && e.Fn != nil {
+			roots = append(roots, e.Fn)
+		}
+	}
+	total := map[string]int{}
+	n := 0
+	for _, fn := range sortedFns(g.Closure(roots)) {
+		if !g.isSubjectFn(fn) || excludedPkg(fnPkgPath(fn)) != "" || isCanaryFn(fn) {
+			continue
+		}
+		n++
+		lintDeterminism(tmp, m, g, fn, total)
+	}
+	nBad := 0
+	for _, o := range tmp.Obligs {
+		if (o.Rule == "C10.D3" || o.Rule == "C10.D4") && o.Status == Violated {
+			nBad++
+			c.Violate("C16.STATE", o.Construct, o.Pos, o.Detail, nil)
+		}
+	}
+	if nBad == 0 {
+		c.Check(n > 5, "C16.STATE", "x/data#stateless", p.Pos(roots[0].Pos()), fmt.Sprintf("%d functions reachable from the x/data handlers: no state outside the store (no stores through server/hasher references, process-local maps, sync primitives or shared standard-library objects)", n))
+	}
 }
 
 func keysOf(m map[string]bool) []string {
